@@ -144,12 +144,139 @@ def run_conc(ctx):
     ctx.total.data.clear()
     ctx.pmap(sub_fn, shards, name='concurrent_schedules')
     ctx.coverage.update(concurrent_cases={c['name']: c['bound'] for c in cs})
+    # a send that accepts half a frame and fails, at every send of every script
+    ctx.pmap(fault_fn, [(n, k) for n in FAULT_SCRIPTS for k in FAULT_KINDS], name='send_faults')
 
 
 def replay_conc(case):
+    if 'fault' in case:
+        name, kind, _at, _partial = case['fault']
+        return fault_fn((name, kind))
     part = core.Part()
     x, viol, sched = execute(case, case['prefix'])
     for sig, detail in viol:
         part.violation(f'C07:{sig}', case, detail)
     part.evaluations = 1
     return part
+
+
+# ---------------------------------------------------------------------------------------------
+# send faults: the socket accepts only part of a frame and then fails (peer not reading: time-out; peer gone: broken pipe)
+
+FAULT_SCRIPTS = {
+    'pings': ['ping a', 'ping bb', 'ping ccc', 'ping dddd'],
+    'activate-change': ['activate', 'change m:_x 5', 'ping z', 'read m:value'],
+    'describe-ping': ['describe', 'ping q', 'ping r'],
+}
+FAULT_KINDS = ['timeout', 'brokenpipe', 'oserror']
+
+
+class FaultSock:
+    def __init__(self, chunks, fail_at, kind, partial):
+        self.chunks = list(chunks)
+        self.fail_at, self.kind, self.partial = fail_at, kind, partial
+        self.out = []
+        self.nsend = 0
+        self.torn_at = None
+        self.closed = False
+
+    def settimeout(self, t):
+        pass
+
+    def recv(self, n):
+        if not self.chunks:
+            return b''
+        return self.chunks.pop(0)
+
+    def sendall(self, data):
+        import socket
+        data = bytes(data)
+        k = self.nsend
+        self.nsend += 1
+        if k == self.fail_at:
+            if self.partial:
+                self.out.append(data[:max(1, len(data) // 2)])
+                self.torn_at = len(self.out)
+            if self.kind == 'timeout':
+                raise socket.timeout('timed out')
+            if self.kind == 'brokenpipe':
+                raise BrokenPipeError(32, 'Broken pipe')
+            raise OSError(5, 'Input/output error')
+        self.out.append(data)
+
+    def shutdown(self, how):
+        pass
+
+    def close(self):
+        self.closed = True
+
+
+def fault_fn(shard):
+    import io
+    import sys
+    from vf import nodes
+    from vf.harness import nodeconc as N
+    from frappy.protocol.interface.tcp import TCPRequestHandler
+    name, kind = shard
+    script = FAULT_SCRIPTS[name]
+    part = core.Part()
+    node = N.build_node(_NoSched(), READS)
+    try:
+        # number of sends of the fault-free run
+        sock = FaultSock([(l + '\n').encode() for l in script], -1, kind, False)
+        _run_handler(node, sock)
+        nsends = sock.nsend
+        for fail_at in range(nsends):
+            for partial in (True, False):
+                sock = FaultSock([(l + '\n').encode() for l in script], fail_at, kind, partial)
+                _run_handler(node, sock)
+                part.evaluations += 1
+                part.traces += 1
+                part.transitions += sock.nsend
+                part.states += 1
+                part.nontrivial += 1
+                stream = b''.join(sock.out)
+                lines = stream.split(b'\n')
+                tail = lines[-1]
+                complete = lines[:-1]
+                bad = []
+                for l in complete:
+                    try:
+                        nodes.split_line(l)
+                    except Exception as e:      # noqa
+                        bad.append((l[:60], repr(e)))
+                after_torn = sock.torn_at is not None and len(sock.out) > sock.torn_at
+                outcome = 'torn-then-silent' if sock.torn_at is not None and not after_torn else \
+                    ('refused-then-continues' if sock.torn_at is None and sock.nsend > fail_at + 1 else 'stopped')
+                part.outcomes[f'{kind}:{outcome}'] += 1
+                case = {'kind': 'conc', 'fault': [name, kind, fail_at, partial]}
+                if after_torn:
+                    part.violation(f'C07:send-fault:{kind}:data-sent-after-a-torn-line', case,
+                                   f'script {script}: send #{fail_at} accepted half a frame and failed with {kind}; the handler went on sending: '
+                                   f'{[o[:40] for o in sock.out[sock.torn_at - 1:sock.torn_at + 2]]}')
+                elif bad:
+                    part.violation(f'C07:send-fault:{kind}:malformed-line-emitted', case, f'script {script}: {bad[:2]}')
+                if part.evaluations % 17 == 1:
+                    part.sample({'script': name, 'fault': kind, 'at_send': fail_at, 'partial': partial, 'outcome': outcome})
+    finally:
+        node.close()
+    return part
+
+
+class _NoSched:
+    """build_node only needs a log list"""
+    def __init__(self):
+        self.log = []
+
+
+def _run_handler(node, sock):
+    import io
+    import sys
+    from vf import nodes
+    from frappy.protocol.interface.tcp import TCPRequestHandler
+    stdout = sys.stdout
+    sys.stdout = io.StringIO()
+    try:
+        TCPRequestHandler(sock, ('127.0.0.1', 1), nodes.InterfaceStub(node))
+    finally:
+        sys.stdout = stdout
